@@ -8,9 +8,13 @@ Regenerates, as Coq data,
     signature in the trailing comment of the same line,
   * the two cheatcode addresses (class attribute `address = BV(0x..., size=160)`),
   * the list of callee addresses exempted from prank consumption in `Prank.lookup`
-    (`to not in [halmos_cheat_code.address, hevm_cheat_code.address]`),
+    (`to not in [halmos_cheat_code.address, hevm_cheat_code.address, console.address]`),
   * the dispatch of the vm.random* selectors in `hevm_cheat_code.handle`
     (`elif funsig == hevm_cheat_code.X_sig: return create_Y(ex, arg, name="Z")`),
+  * the six block-setting handlers of `hevm_cheat_code.handle` (vm.fee/chainId/coinbase/
+    difficulty/roll/warp): each arm must be exactly `ex.block.<attr> = arg.get_word(4)` (or
+    `uint160(arg.get_word(4))`) followed by `return ret` -- an in-place attribute assignment on
+    the path's Block object; the table (selector constant, attribute, truncated?) is emitted,
   * the literal bit-size bound of create_uint / create_int (`if bits > 256`) and the
     literal widths passed to create_generic by the fixed-width creators.
 Fail-closed: any unexpected shape raises TranslateError.
@@ -128,6 +132,56 @@ def _random_dispatch(handle_fn, sig_names):
     return out, seen
 
 
+BLOCK_SIGS = ("fee_sig", "chainid_sig", "coinbase_sig", "difficulty_sig", "roll_sig", "warp_sig")
+
+
+def _block_handlers(handle_fn):
+    """`elif funsig == hevm_cheat_code.X_sig: ex.block.F = arg.get_word(4) | uint160(arg.get_word(4)); return ret`"""
+    out = {}
+
+    def is_word4(e):
+        return (isinstance(e, ast.Call) and isinstance(e.func, ast.Attribute) and e.func.attr == "get_word"
+                and isinstance(e.func.value, ast.Name) and e.func.value.id == "arg" and len(e.args) == 1 and not e.keywords
+                and isinstance(e.args[0], ast.Constant) and e.args[0].value == 4)
+
+    def visit_if(node):
+        t = node.test
+        if (isinstance(t, ast.Compare) and len(t.ops) == 1 and isinstance(t.ops[0], ast.Eq)
+                and isinstance(t.left, ast.Name) and t.left.id == "funsig"
+                and isinstance(t.comparators[0], ast.Attribute) and isinstance(t.comparators[0].value, ast.Name)
+                and t.comparators[0].value.id == "hevm_cheat_code" and t.comparators[0].attr in BLOCK_SIGS):
+            key = t.comparators[0].attr
+            body = node.body
+            if key in out:
+                raise TranslateError(f"handle: {key} dispatched twice")
+            if not (len(body) == 2 and isinstance(body[0], ast.Assign) and len(body[0].targets) == 1
+                    and isinstance(body[1], ast.Return) and isinstance(body[1].value, ast.Name) and body[1].value.id == "ret"):
+                raise TranslateError(f"handle: {key}: expected `ex.block.<attr> = <word>; return ret`")
+            tgt, val = body[0].targets[0], body[0].value
+            if not (isinstance(tgt, ast.Attribute) and isinstance(tgt.value, ast.Attribute) and tgt.value.attr == "block"
+                    and isinstance(tgt.value.value, ast.Name) and tgt.value.value.id == "ex"):
+                raise TranslateError(f"handle: {key}: the assignment target is not ex.block.<attr>: {ast.unparse(tgt)}")
+            if is_word4(val):
+                trunc = False
+            elif (isinstance(val, ast.Call) and isinstance(val.func, ast.Name) and val.func.id == "uint160" and len(val.args) == 1
+                  and not val.keywords and is_word4(val.args[0])):
+                trunc = True
+            else:
+                raise TranslateError(f"handle: {key}: unsupported value {ast.unparse(val)}")
+            out[key] = (tgt.attr, trunc)
+        for o in node.orelse:
+            if isinstance(o, ast.If):
+                visit_if(o)
+
+    for st in handle_fn.body:
+        if isinstance(st, ast.If):
+            visit_if(st)
+    missing = [k for k in BLOCK_SIGS if k not in out]
+    if missing:
+        raise TranslateError(f"handle: no arm found for {missing}")
+    return out
+
+
 def _creator_info(tree):
     """literal widths / type names given to create_generic and the `bits > N` bounds"""
     info = {}
@@ -218,6 +272,7 @@ def translate(src_text):
     handle_fn = find_function(tree, "handle", cls="hevm_cheat_code")
     rnd, dispatched = _random_dispatch(handle_fn, {n for n, _, _ in hevm_sigs})
     creators = _creator_info(tree)
+    blockh = _block_handlers(handle_fn)
     for k, (f, _nm) in rnd.items():
         if f not in creators and f not in ("create_bytes",):
             raise TranslateError(f"{k}: dispatches to unknown creator {f}")
@@ -259,6 +314,11 @@ def translate(src_text):
     L.append("(* hevm selectors that hevm_cheat_code.handle dispatches on *)")
     L.append("Definition hevm_dispatched : list N := [" + "; ".join(n for n, _, _ in hevm_sigs if n in dispatched) + "].")
     L.append("")
+    L.append("(* vm.fee/chainId/coinbase/difficulty/roll/warp: `ex.block.<attr> = word` (true: `uint160(word)`) *)")
+    L.append("Definition block_handlers : list (N * string * bool) := [")
+    L.append(";\n".join(f"  ({k}, {_coq_string(a)}, {'true' if t else 'false'})" for k, (a, t) in blockh.items()))
+    L.append("].")
+    L.append("")
     L.append("(* creators: (function, type-name (prefix), width or upper bound of the width) *)")
     L.append("Definition creators_fixed : list (string * string * Z) := [")
     L.append(";\n".join(f"  ({_coq_string(f)}, {_coq_string(ty)}, {w}%Z)" for f, (k, ty, w) in creators.items() if k == "fixed"))
@@ -268,7 +328,7 @@ def translate(src_text):
             L.append(f"Definition {f}_max_bits : Z := {w}%Z.")
             L.append(f"Definition {f}_type_prefix : string := {_coq_string(ty)}.")
     L.append("")
-    info = {"hevm": hevm_sigs, "handlers": handlers, "addr": addr, "exempt": exempt, "random": rnd, "cheat_addrs": cheat_addrs}
+    info = {"hevm": hevm_sigs, "handlers": handlers, "addr": addr, "exempt": exempt, "random": rnd, "cheat_addrs": cheat_addrs, "block_handlers": blockh}
     return "\n".join(L), info
 
 
